@@ -437,12 +437,19 @@ func r113header(c *an.Ctx) {
 				}
 				return false
 			}
-			guarded := false
-			for _, e := range an.GuardingEdges(u) {
-				if observedHeaderC(e, 0) {
-					guarded = true
-				}
-			}
+			// every path to the read takes some edge on which headerC was observed closed (the paths may differ:
+			// `case <-c.headerC:` on one, `if c.headerSent()` after ctx.Done on another)
+			t, _ := an.PathQuery{
+				Target: func(x ssa.Instruction) bool { return x == ssa.Instruction(u) },
+				AvoidEdge: func(from, to *ssa.BasicBlock) bool {
+					iff, isIf := from.Instrs[len(from.Instrs)-1].(*ssa.If)
+					if !isIf || from.Succs[0] == from.Succs[1] {
+						return false
+					}
+					return observedHeaderC(an.CondEdge{If: iff, Branch: to == from.Succs[0]}, 0)
+				},
+			}.From(fn, nil)
+			guarded := t == nil
 			c.SawFunc(an.FuncName(fn))
 			c.Check(guarded, rule, an.FuncName(fn)+"|read of header is ordered after headerC was closed", u.Pos(), "dominated by a receive on headerC",
 				"the client reads the stream header without having observed headerC closed: the handler goroutine may still be writing it (grpc.SetHeader / SendHeader)")
